@@ -458,7 +458,7 @@ func runC11(a *Args) error {
 
 	nMem, nOci := 1050, 210
 	if a.Tier == "thorough" {
-		nMem, nOci = 40000, 6000
+		nMem, nOci = 33000, 5500
 	}
 	var id int64
 	// systematic histories A-B-A / B-A-B / B-B-A on one repository instance, in both modes
